@@ -90,13 +90,18 @@ type c06payload struct {
 	Rels  map[string]string `json:"rels"`  // relationship name -> raw JSON text of its data member ("" = no data member)
 	Extra bool              `json:"extra_members"`
 	Meta  string            `json:"meta,omitempty"` // raw JSON text of a resource-level meta member
+	NoID  bool              `json:"no_id,omitempty"` // the payload has no id member (a creation request): the ID reads ""
 }
 
 func (p *c06payload) bytes() []byte {
 	var sb strings.Builder
 	idb, _ := json.Marshal(p.ID)
 	tb, _ := json.Marshal(p.Type.Name)
-	fmt.Fprintf(&sb, `{"id":%s,"type":%s`, idb, tb)
+	if p.NoID {
+		fmt.Fprintf(&sb, `{"type":%s`, tb)
+	} else {
+		fmt.Fprintf(&sb, `{"id":%s,"type":%s`, idb, tb)
+	}
 	if len(p.Attrs) > 0 || p.Extra {
 		sb.WriteString(`,"attributes":{`)
 		for i, k := range sortedKeys(p.Attrs) {
@@ -583,6 +588,9 @@ func (m c06) Case(c *Ctx, r *RNG) {
 	t := s.Types[0]
 	for rep := 0; rep < 6; rep++ {
 		p := &c06payload{Type: t, ID: genID(r), Attrs: map[string]string{}, Rels: map[string]string{}, Extra: r.Chance(1, 4)}
+		if r.Chance(1, 6) {
+			p.NoID, p.ID = true, "" // a creation request: no id member; whatever was unmarshaled before, the ID reads ""
+		}
 		for _, a := range t.Attrs {
 			if r.Chance(1, 4) {
 				continue
